@@ -124,6 +124,16 @@ var properties = map[string]*propSpec{
 			{Check: "TestC05_History", Class: "nontrivial", Min: 0.2},
 		},
 	},
+	"C07": {
+		Title: "Result order is deterministic: sorted keys, index order, written order",
+		Checks: []checkSpec{
+			{Test: "TestC07_Order", Quick: 4000, Thorough: 80000, Rapid: true, Flaky: true},
+		},
+		Assumptions: assume(specAssumption, "detecting an unsorted traversal relies on Go's per-range map randomisation (the chance that 30 repetitions over >=3 keys all coincide with sorted order is < 1e-20); Go's map iteration seed is not a function of VERIF_SEED"),
+		Floors: []floor{
+			{Check: "TestC07_Order", Class: "nontrivial", Min: 0.4},
+		},
+	},
 	"C08": {
 		Title: "Steps compose: P followed by Q equals Q applied to each result of P",
 		Checks: []checkSpec{
